@@ -91,6 +91,47 @@ func (x *Exec) invoke(st *State, fr *Frame, b *ssa.BasicBlock, i int, in ssa.Cal
 				return false
 			}
 		}
+		if prm, ok := cc.Value.(*ssa.Parameter); ok && fr.parent == nil {
+			// call of a function-typed parameter of the verified function (a callback): its effect is
+			// unknown (every heap is havoced); that it ran and what it returned is recorded for cbran/cbret
+			x.usedExt["callback parameter "+prm.Name()+": arbitrary effects on pre-existing objects assumed; objects allocated by the caller and not passed to it are untouched"] = true
+			for _, a := range args {
+				if (a.K == KPtr && a.Ptr != nil && (a.Ptr.Heap != "" || a.Ptr.Local != nil)) || a.K == KSlice {
+					bail("callback receives a reference into modelled memory")
+				}
+			}
+			for k := range st.heaps {
+				if _, ok := st.hsort[k]; ok {
+					old := st.heaps[k]
+					nh := x.havocHeap(st, k)
+					if strings.HasPrefix(k, "HS_") || k == "FB" || k == "DISK" {
+						st.assume(fmt.Sprintf("(forall ((r Int) (k Int)) (! (=> (> r %s) (= (select (select %s r) k) (select (select %s r) k))) :pattern ((select (select %s r) k))))", x.entry.top, nh, old, nh))
+					} else {
+						st.assume(fmt.Sprintf("(forall ((r Int)) (! (=> (> r %s) (= (select %s r) (select %s r))) :pattern ((select %s r))))", x.entry.top, nh, old, nh))
+					}
+				}
+			}
+			nt := x.freshName("top")
+			st.declare(nt, "Int")
+			st.assume(and(sx(">=", nt, st.top), sx("<=", nt, "4611686018427387904")))
+			st.top = nt
+			sig := cc.Signature()
+			var r Val
+			switch sig.Results().Len() {
+			case 0:
+				r = Val{K: KTuple}
+			case 1:
+				r = x.freshVal(st, "cb", sig.Results().At(0).Type())
+			default:
+				r = x.freshVal(st, "cb", sig.Results())
+			}
+			st.ghost["cbran:"+prm.Name()] = "true"
+			if r.K == KErr {
+				st.ghost["cbret:"+prm.Name()] = r.T
+			}
+			setResult(r)
+			return false
+		}
 		if named, ok := cc.Value.Type().(*types.Named); ok {
 			if con := x.P.specs.Funcs["ext:dynamic:"+named.String()]; con != nil {
 				x.usedExt["calls through values of type "+named.String()+" follow its assumed contract"] = true
@@ -532,6 +573,14 @@ func (x *Exec) applyContract(st *State, fr *Frame, callee *ssa.Function, con *Co
 	var rets []Val
 	for i := 0; i < res.Len(); i++ {
 		rets = append(rets, x.freshVal(st, "r_"+callee.Name(), res.At(i).Type()))
+	}
+	for _, pn := range con.Plain {
+		for i := range rets {
+			if (pn == fmt.Sprintf("result%d", i) || (pn == "result" && len(rets) == 1)) && rets[i].K == KPtr && rets[i].Ptr != nil {
+				rets[i].Ptr.Enc = false
+				st.assume(sx(">=", rets[i].Ptr.Root, "0"))
+			}
+		}
 	}
 	env2 := &Env{st: st, vars: env.vars, pkg: con.Pkg, old: snap}
 	x.bindResults(callee, env2, rets)
